@@ -356,3 +356,22 @@ Fixpoint valid_ops (st : store) (last : option event) (ops : list op) : bool :=
       | None => false
       end
   end.
+
+(* the trace the model itself produces for a history with re-applies, reading every (ws, id) of
+   qs after every step (used by the link theorem: the oracle accepts every model run) *)
+Definition obs_all (st : store) (qs : list (N * N)) : trace :=
+  map (fun q => SObs 0 (fst q) (snd q) (lookup st (fst q) (snd q))) qs.
+
+Fixpoint model_trace (st : store) (last : option event) (ops : list op) (qs : list (N * N)) : trace :=
+  match ops with
+  | [] => []
+  | OApply e :: r =>
+      let st' := fst (apply st e) in
+      SApply e (snd (apply st e)) :: obs_all st' qs ++ model_trace st' (Some e) r qs
+  | OReapply :: r =>
+      match last with
+      | Some e => let st' := fst (reapply st e) in
+                  SReapply 2 (snd (reapply st e)) :: obs_all st' qs ++ model_trace st' last r qs
+      | None => model_trace st last r qs
+      end
+  end.
